@@ -30,12 +30,14 @@ type sseNotificationSender struct {
 }
 
 // newSSENotificationSender creates an SSE notification sender
-func newSSENotificationSender(w http.ResponseWriter, f http.Flusher, sessionID string) *sseNotificationSender {
+// The sender shares the SSE writer (and thereby the event ID counter) of the responder that answers
+// on the same stream, so that event IDs on one response stream are pairwise distinct.
+func newSSENotificationSender(w http.ResponseWriter, f http.Flusher, sessionID string, sseWriter *sseutil.Writer) *sseNotificationSender {
 	return &sseNotificationSender{
 		writer:    w,
 		flusher:   f,
 		sessionID: sessionID,
-		sseWriter: sseutil.NewWriter(),
+		sseWriter: sseWriter,
 	}
 }
 
